@@ -75,7 +75,8 @@ Definition loads_to (st : fstyle) (a : adoc) (x : xsstyle) (file : bytes) : Prop
     d_version d = a_version a /\ d_trailer d = tGof st a x /\
     (forall tp, In tp (ptops st a) -> lookup (d_objects d) (fst (fst tp)) = Some (loaded_top tp)) /\
     (forall s n, In s (s_ostms st) -> In n (os_members s) -> lookup (d_objects d) (n, 0) = Some (member_val (a_objs a) s n)) /\
-    (forall s, In s (s_ostms st) -> exists d', lookup (d_objects d) (os_id s, 0) = Some (OStream d' (payload s (itemsof a s)))) /\
+    (forall s, In s (s_ostms st) ->
+               exists d' k, lookup (d_objects d) (os_id s, 0) = Some (OStream d' (payload s (itemsof a s) ++ repeat x20 k))) /\
     lookup (d_objects d) (xs_id x, 0) =
       Some (stream_new (ddG st a x (contsof st a) (snd (gxs_enc st a x)) (fst (gxs_enc st a x))) (fst (gxs_enc st a x))) /\
     (forall id o, lookup (d_objects d) id = Some o ->
